@@ -13,6 +13,7 @@ SPEC = {
         "still privileged (no path from setuid to setgid)."
         " Also: PopenConfig::default() requests no executable/env/cwd/uid/gid/pgid; the chdir/setuid/setgid/setpgid wrappers call libc with their argument on every path. Thorough tier, windows: format_env_block appends name, '=', value, NUL per kept pair and one final NUL, with the same reverse/filter/reverse last-wins idiom over ASCII-uppercased names."
         " Every name and value of the configured environment passes the NUL-checking constructor in a loop before format_env removes shadowed duplicates (reported D17). Thorough tier, windows: the environment is scanned for NUL before CreateProcess and an empty environment still yields two NULs (reported D18, D19)."
+        " A configured name containing '=' (past its first byte) is refused before fork / CreateProcess: NAME=VALUE is how an entry is spelled, so such a name would arrive as a different variable (R06.10, reported D21)."
     ),
     "not_decided": "format_env's last-wins de-duplication and KEY=VALUE joining as an algorithm over run-time data; byte-exact "
                    "survival of arbitrary OsStr through the kernel; an `executable` containing NUL (the statement's NUL clause names "
@@ -188,6 +189,12 @@ def run(ctx):
            "NUL-checking constructor (os_to_cstring(..)?): otherwise `[(K, \"a\\0b\"), (K, \"fine\")]` is accepted while `[(K, \"a\\0b\")]` is refused "
            "(components checked: %s)" % sorted(comps))
 
+    # ---- R06.10 a name containing '=' is refused, not delivered as another variable --------------------------------------------------
+    env_names_checked_for_equals(ctx, prog, os_start_, Tos, fe_calls, "R06.10", "env-name-with-equals-rejected-before-fork",
+                                 "format_env spells every entry NAME=VALUE, and the child splits at the first '=': a configured name containing '=' "
+                                 "(`(\"A=B\", \"C\")`) reaches the child as the variable A with value \"B=C\" — a variable nobody listed, while the listed one "
+                                 "does not exist.  Such a name cannot be delivered, so the launch must refuse it before fork (like a name containing NUL)")
+
     # ---- R06.2 C strings only from the NUL-checking constructor -------------
     bad_ctors = ("from_vec_unchecked", "from_raw", "from_bytes_with_nul_unchecked", "from_vec_with_nul_unchecked", "from_ptr")
     for p, fn in sorted(prog.fns.items()):
@@ -326,6 +333,50 @@ def run(ctx):
             v = Tb.rvalue(st[0][2]["r"])
             ok = v[0] == "agg" and v[1][:3] == ("adt", "std::option::Option", "Some") and v[2][0] == ("param", 2, f.local_name(2))
         ctx.ob("R06.4", "builder.%s" % field, ok, f.loc(0), "Exec::%s must store Some(arg) into config.%s only" % (field, field))
+
+
+def env_names_checked_for_equals(ctx, prog, fn, T, sinks, rule, key, why):
+    """Every configured environment name is examined for '=' (U+003D) before the environment is assembled (the calls in `sinks`), and
+    a hit ends the launch with Err.  `NAME=rest` is how the child's environment is spelled, so a name containing '=' is read by the child
+    as a different variable: ("A=B", "C") arrives as A = "B=C".  Recognised by what it does, not how it is written: a test inside a loop
+    over config.env whose subject is component 0 of the item and which mentions the unit 61 (directly, or in the closure it applies),
+    one outcome of which leads only to Err returns."""
+    import json
+    envf = lambda u: u[0] == "field" and u[2] == "env" and M.contains(u, lambda w: w[0] == "param")
+    is_name = lambda t_: M.contains(t_, lambda u: u[0] == "field" and u[2] == "0" and M.contains(u, envf))
+    is_value = lambda t_: M.contains(t_, lambda u: u[0] == "field" and u[2] == "1" and M.contains(u, envf))
+
+    def mentions_eq(t_):
+        if M.contains(t_, lambda u: u[0] == "const" and u[1] == 61):
+            return True
+        hit = []
+        def clo(u):
+            if u[0] == "agg" and u[1][0] == "closure" and u[1][1] in prog.fns:
+                if '"int": 61' in json.dumps(prog.fns[u[1][1]].j["body"]):
+                    hit.append(u[1][1])
+            return False
+        M.contains(t_, clo)
+        return bool(hit)
+    loops_ = M.sccs(fn)
+    gates = []
+    for bb in sorted(fn.live_blocks()):
+        t = fn.blocks[bb]["term"]
+        if t["k"] != "switch" or not any(bb in l for l in loops_):
+            continue
+        sw = M.switch_term(fn, T, bb)
+        if not (is_name(sw) and not is_value(sw) and mentions_eq(sw)):
+            continue
+        for tgt in set(fn.succs(bb)):
+            rv = [v for (b2, si2, v, r2) in result_variants(fn, M.Explore(fn, start=tgt))]
+            if rv and all(v in ("Err", "from_residual") for v in rv) and not (fn.reachable(tgt) & set(sinks)):
+                gates.append(bb)
+    ok = bool(gates) and bool(sinks)
+    if ok:
+        lp = [l for l in loops_ if any(g in l for g in gates)]
+        none_e = variant_edges(fn, T, lambda t_: M.contains(t_, envf), 0, [0, 1], "std::option::Option<")
+        # the environment is assembled only behind that loop, or with no environment configured at all
+        ok = not (set(sinks) & fn.reachable(0, removed_blocks=[min(lp[0])], removed_edges=set(none_e)))
+    ctx.ob(rule, key, ok, fn.loc(sinks[0] if sinks else 0), why)
 
 
 def dedup_idiom(ctx, prog, fe, rule, name, key_pred=None):
